@@ -104,6 +104,61 @@ def call_attr(call):
     return None
 
 
+_NEG_CMP = {ast.Is: ast.IsNot, ast.IsNot: ast.Is, ast.In: ast.NotIn, ast.NotIn: ast.In, ast.Eq: ast.NotEq, ast.NotEq: ast.Eq}
+
+
+def _push_not(e):
+    """the negation of expression e with the `not` pushed inwards as far as it is exact: double negation, De Morgan, and
+    the comparison kinds that have an exact opposite (is / in / ==).  Ordering comparisons are NOT flipped: `not (a < b)` and
+    `a >= b` differ for NaN, and that difference is what some rules decide."""
+    if isinstance(e, ast.UnaryOp) and isinstance(e.op, ast.Not):
+        return _norm_expr(e.operand)
+    if isinstance(e, ast.BoolOp):
+        new = ast.BoolOp(op=ast.Or() if isinstance(e.op, ast.And) else ast.And(), values=[_push_not(v) for v in e.values])
+        return ast.copy_location(new, e)
+    if isinstance(e, ast.Compare) and len(e.ops) == 1 and type(e.ops[0]) in _NEG_CMP:
+        new = ast.Compare(left=e.left, ops=[_NEG_CMP[type(e.ops[0])]()], comparators=e.comparators)
+        return ast.copy_location(new, e)
+    new = ast.UnaryOp(op=ast.Not(), operand=_norm_expr(e))
+    return ast.copy_location(new, e)
+
+
+def _norm_expr(e):
+    if isinstance(e, ast.UnaryOp) and isinstance(e.op, ast.Not):
+        return _push_not(e.operand)
+    if isinstance(e, ast.BoolOp):
+        vals = []
+        for v in e.values:
+            nv = _norm_expr(v)
+            if isinstance(nv, ast.BoolOp) and type(nv.op) is type(e.op):
+                vals.extend(nv.values)       # (a and (b and c)) -> (a and b and c): same evaluation order
+            else:
+                vals.append(nv)
+        return ast.copy_location(ast.BoolOp(op=e.op, values=vals), e)
+    return e
+
+
+def normalize_tests(tree):
+    """canonical form of the conditions of if / while / conditional expressions / comprehension filters, so that rules see the
+    same test for logically identical spellings: negations are pushed inwards (double negation, De Morgan, `not (x is None)`
+    -> `x is not None`, `not (a in b)`, `not (a == b)`), and `if not X: A else: B` (a negated test with an else branch) is
+    turned into `if X: B else: A`.  Nothing else is touched; evaluation order and short-circuiting are unchanged."""
+    for n in ast.walk(tree):
+        if isinstance(n, (ast.If, ast.While, ast.IfExp)):
+            n.test = _norm_expr(n.test)
+            if isinstance(n, ast.If) and n.orelse and isinstance(n.test, ast.UnaryOp) and isinstance(n.test.op, ast.Not) \
+                    and not (len(n.orelse) == 1 and isinstance(n.orelse[0], ast.If) and n.orelse[0].col_offset == n.col_offset):
+                n.test = n.test.operand
+                n.body, n.orelse = n.orelse, n.body
+            elif isinstance(n, ast.IfExp) and isinstance(n.test, ast.UnaryOp) and isinstance(n.test.op, ast.Not):
+                n.test = n.test.operand
+                n.body, n.orelse = n.orelse, n.body
+        elif isinstance(n, ast.comprehension):
+            n.ifs = [_norm_expr(x) for x in n.ifs]
+        elif isinstance(n, ast.Assert):
+            n.test = _norm_expr(n.test)
+
+
 def set_parents(tree):
     for n in ast.walk(tree):
         for c in ast.iter_child_nodes(n):
@@ -465,6 +520,8 @@ class Model:
             except (SyntaxError, UnicodeDecodeError, OSError) as e:
                 self.parse_errors.append((rel, repr(e)))
                 continue
+            if not os.environ.get('VERIF_NO_NORMALIZE'):
+                normalize_tests(tree)
             set_parents(tree)
             self.modules[name] = ModuleInfo(name, path, rel, source, tree)
 
